@@ -537,7 +537,7 @@ func scenarioStrategies(c *harness.Ctx, rep int) {
 // ---- attester: attestation jobs of one epoch released together ----
 
 func scenarioAttester(c *harness.Ctx, rep int) {
-	findings, requests := attcommon.Storm(c.Rand("attester-overlap", rep), 40)
+	findings, requests := attcommon.Storm(c.Rand("attester-overlap", rep), 400)
 	c.Count("attester_sign_requests", int64(requests))
 	for _, f := range findings {
 		c.Violate("non-sequential-result:attester:"+f.Key, "overlapping attestation jobs of one epoch: "+f.What+" (no sequential order of the jobs does that)", c.CaseID(fmt.Sprintf("attester-overlap#%d", rep)), nil)
